@@ -116,6 +116,57 @@ def run_cli(world, args, timeout=120, env_extra=None, interpose=True,
     return res
 
 
+def run_cli_controlled(world, args, controller, timeout=120, env_extra=None):
+    """Like run_cli, but the run is *steered*: while the runner works,
+    controller(events_so_far, barrier_dir) is called again and again; it
+    releases barriers (files) on which scripted tests / layer hooks wait, so a
+    schedule computed by TLC is forced on the real processes."""
+    d = tempfile.mkdtemp(prefix='w-', dir=scratch_root())
+    wpath = os.path.join(d, 'world.json')
+    lpath = os.path.join(d, 'events.ndjson')
+    bdir = os.path.join(d, 'barriers')
+    os.makedirs(bdir)
+    with open(wpath, 'w') as f:
+        json.dump(world, f)
+    env = base_env({'VERIF_WORLD': wpath, 'VERIF_LOG': lpath,
+                    'VERIF_BARRIER_DIR': bdir, 'VERIF_INTERPOSE': '1'})
+    if env_extra:
+        env.update(env_extra)
+    cmd = [PY, os.path.join(BOOT, 'zt.py'), '--path', WORLD_DIR] + list(args)
+    outf = open(os.path.join(d, 'stdout'), 'wb')
+    errf = open(os.path.join(d, 'stderr'), 'wb')
+    t0 = time.monotonic()
+    p = subprocess.Popen(cmd, env=env, stdout=outf, stderr=errf, cwd=d,
+                         stdin=subprocess.DEVNULL)
+    timed_out = False
+    while p.poll() is None:
+        if time.monotonic() - t0 > timeout:
+            timed_out = True
+            p.kill()
+            subprocess.run(['pkill', '-f', wpath], check=False)
+            # let parked children go so that nothing lingers
+            for n in world.get('env', {}).get('barriers', ()):
+                open(os.path.join(bdir, n), 'w').close()
+            break
+        controller(read_events(lpath), bdir)
+        time.sleep(0.01)
+    p.wait()
+    outf.close()
+    errf.close()
+    with open(os.path.join(d, 'stdout'), 'rb') as f:
+        out = f.read()
+    with open(os.path.join(d, 'stderr'), 'rb') as f:
+        err = f.read()
+    res = {'rc': -999 if timed_out else p.returncode, 'timed_out': timed_out,
+           'wall': time.monotonic() - t0,
+           'stdout': out.decode('utf-8', 'backslashreplace'),
+           'stderr': err.decode('utf-8', 'backslashreplace'),
+           'events': read_events(lpath), 'dir': d}
+    res['report'] = reportmod.parse(res['stdout'])
+    shutil.rmtree(d, ignore_errors=True)
+    return res
+
+
 def run_cli_many(jobs, workers=None, **kw):
     """jobs: list of (world, args[, kwargs]); parallel over processes."""
     def one(job):
